@@ -77,7 +77,32 @@ def _mean_preamble(tr):
         return f"Definition rom_with_{field} (c : rom) (v : {ty}) : rom := mk_rom {args}.\n"
     setters = (setter("alternative", "alternative") + setter("confidence_level", "num")
                + setter("equal_var", "bool") + setter("use_t", "bool"))
-    return _record_decl(ROM_REC, "rom") + _record_decl(MR_REC, "mean_result") + setters + "\n"
+    # class Mean(RatioOfMeans): __init__ forwards to super().__init__ - the wiring becomes the definition mean_cfg
+    minit = tr.find_def("Mean.__init__")
+    sup = [n for n in _ast.walk(minit) if isinstance(n, _ast.Call) and _ast.unparse(n.func) == "super().__init__"]
+    if len(sup) != 1 or sup[0].args:
+        raise Unsupported("Mean.__init__: expected exactly one keyword-only super().__init__ call")
+    kw = {k.arg: k.value for k in sup[0].keywords}
+    from py2coq import coq_ty
+    params, args = ["(v_value : string)", "(v_covariate : option string)"], []
+    for f, t in ROM_REC.fields.items():
+        if f not in kw:
+            raise Unsupported(f"Mean.__init__ does not pass {f}")
+        v = kw[f]
+        if isinstance(v, _ast.Constant) and v.value is None:
+            args.append("None")
+        elif isinstance(v, _ast.Name) and v.id == "value":
+            args.append("v_value")
+        elif isinstance(v, _ast.Name) and v.id == "covariate":
+            args.append("v_covariate")
+        elif isinstance(v, _ast.Name) and v.id == f:
+            params.append(f"(v_{f} : {coq_ty(t)})")
+            args.append(f"v_{f}")
+        else:
+            raise Unsupported(f"Mean.__init__ passes {f}={_ast.unparse(v)}")
+    wiring = ("(* Mean.__init__: " + _ast.unparse(sup[0])[:200].replace("*)", "* )") + " *)\n"
+              f"Definition mean_cfg {' '.join(params)} : rom := mk_rom {' '.join(args)}.\n")
+    return _record_decl(ROM_REC, "rom") + _record_decl(MR_REC, "mean_result") + setters + wiring + "\n"
 
 
 SD_RET = tup(NUM, DIST, opt(DIST))
